@@ -132,7 +132,7 @@ def mates_battery(run, orders=('3', '4', '3,4', '1,2,3', '4,3', '2,4,3')):
         s2, hook = have(run)
         if not s2:
             return 'unavailable'
-        jobs = [(o, p) for p in positions(run, playouts=6, plies=80, step=2, endgame_seeds=10) for o in orders[:1]]
+        jobs = [(o, p) for p in positions(run, playouts=24, plies=100, step=1, endgame_seeds=10) for o in orders[:1]]
 
         def classify(job):
             o, p = job
@@ -167,6 +167,13 @@ def replay_file(run, c):
         if _last(o).startswith('PANIC'):
             return 1
         return 1 if (r is not None and cmp_disagrees(r)) else 0
+    if c['cmd'] == 'searchdet':
+        outs = []
+        for _ in range(2):
+            rc, o, e = native.run_helper(run.helper, ['search', 'det', str(c['depth'])] + c['position'], timeout=600)
+            outs += _last(o).split()[2:]
+        print('replay search det depth %s `%s` -> %s' % (c['depth'], ' '.join(c['position']), ' | '.join(outs)))
+        return 1 if len(set(outs)) != 1 else 0
     if c['cmd'] == 'searchcut':
         rc, o, e = native.run_helper(run.helper, ['search', 'cut', str(c['depth']), str(c['nodes'])] + c['position'], timeout=600)
         r = parse_cut(_last(o))
@@ -186,7 +193,7 @@ def confirm_on_real_engine(run, which):
     if not run.violations:
         return
     try:
-        res = {'cmp': cmp_battery, 'mates': mates_battery, 'cut': cut_battery}[which](run)
+        res = {'cmp': cmp_battery, 'mates': mates_battery, 'cut': cut_battery, 'det': det_battery}[which](run)
     except Exception as ex:
         res = 'unavailable'
     run.extra['native_search_replay'] = res if not isinstance(res, list) else res[0]
@@ -217,6 +224,11 @@ CUT_FENS = [
     '8/2p5/3p4/KP5r/1R3p1k/8/4P1P1/8 w - - 0 1',
     '4k3/8/8/8/8/5n2/8/R3K2R w KQ - 0 1',
     '5rk1/5ppp/8/8/8/8/1Q3PPP/6K1 w - - 0 1',
+    # the side to move is behind and has captures: a dummy 0 from a cut child looks better than the true values
+    'r3k3/8/8/3q4/4P3/8/8/4K2R w K - 0 1',
+    '4k3/pp6/8/2n1r3/3P4/8/8/4K3 w - - 0 1',
+    'rn2k3/8/8/8/2b5/3P4/8/4K3 w - - 0 1',
+    '4k3/8/8/8/3p4/2b5/1P6/4K2r w - - 0 1',
 ]
 
 
@@ -229,7 +241,7 @@ def parse_cut(line):
     return d
 
 
-def cut_battery(run, depths=(2, 3), max_cuts=160):
+def cut_battery(run, depths=(1, 2, 3), max_cuts=1500):
     """searches cut by a node budget N (every N up to the size of the full search, capped) from an empty cache: an entry left in
     the cache that is unsound for its position and depth - while the uncut search of the same position leaves only sound
     entries (this differential cancels the oracle's blind spots: history-dependent values, unknown positions)"""
@@ -268,3 +280,39 @@ def cut_battery(run, depths=(2, 3), max_cuts=160):
                             {'cmd': 'searchcut', 'depth': d, 'nodes': n, 'position': f.split()}]
         return {'cut_points_tried': len(jobs)}
     return _memo(run, 'searchcut', compute)
+
+
+# ---------------------------------------------------------------- C16: determinism
+
+def det_battery(run, depths=(1, 2, 3)):
+    """the same fixed-depth search from an emptied cache: three times in one process (first thing, again, after an unrelated
+    search) and in a second process; (best move, score, node count) must be identical everywhere"""
+    def compute():
+        s2, hook = have(run)
+        if not s2:
+            return 'unavailable'
+        jobs = [(d, p) for p in positions(run, playouts=3, plies=40, step=5, endgame_seeds=1) for d in depths]
+
+        def one(job):
+            d, p = job
+            outs = []
+            for _ in range(2):
+                try:
+                    rc, o, e = native.run_helper(run.helper, ['search', 'det', str(d)] + p, timeout=300)
+                except Exception:
+                    return job, None
+                outs.append(_last(o))
+            return job, outs
+        with ThreadPoolExecutor(16) as tp:
+            for (d, p), outs in tp.map(one, jobs):
+                if not outs or not all(o.startswith('OK det') for o in outs):
+                    if outs and any(o.startswith('PANIC') for o in outs):
+                        return ['`go depth %d` in `%s` panics' % (d, ' '.join(p)), {'cmd': 'searchdet', 'depth': d, 'position': p}]
+                    continue
+                res = set(outs[0].split()[2:] + outs[1].split()[2:])
+                if len(res) != 1:
+                    return ['`go depth %d` from an emptied cache in `%s` gives different (move/score/nodes) results: %s (process 1: first, again, '
+                            'after another search; process 2: same)' % (d, ' '.join(p), ' | '.join(outs[0].split()[2:] + outs[1].split()[2:])),
+                            {'cmd': 'searchdet', 'depth': d, 'position': p}]
+        return {'searches_compared': 6 * len(jobs)}
+    return _memo(run, 'searchdet', compute)
